@@ -9,6 +9,8 @@ Section Bind.
 Variable value : Type.
 Variable is_none : value -> bool.
 Variable sg : signature value.
+Variable veq : value -> value -> bool.
+Hypothesis NV : s_varpos sg = false.      (* functions without *args *)
 
 Notation dict := (dict value).
 Notation rcfg := reference_cfg.
@@ -35,7 +37,7 @@ Proof.
     try (destruct (dget self_name r); [reflexivity|]);
     try (destruct (dget self_name (filter notnone r)); reflexivity);
     try reflexivity;
-    unfold as_args; cbn [reference_cfg aa_arrival_on_unknown_key aa_signature_order negb];
+    unfold as_args; rewrite NV; cbn [reference_cfg aa_arrival_on_unknown_key aa_signature_order negb];
     rewrite andb_false_r; reflexivity.
 Qed.
 
@@ -45,17 +47,17 @@ Definition observe (mode : return_as) (r : dict) : final value :=
   match py_bind value sg pos kw with Ok b => FBody b | Raise e => FRaise e None end.
 
 Theorem run_ref : forall env (dc : deco value) is_async c,
-  run value is_none rcfg rr sg env dc is_async c =
+  run value is_none veq rcfg rr sg env dc is_async c =
   (fst (wc_ref value is_none sg env dc c),
    match snd (wc_ref value is_none sg env dc c) with
    | WOk r => observe (d_mode dc) r
    | WRaise e pn => FRaise e pn
    end).
 Proof.
-  intros. unfold run. rewrite wrapper_content_ref.
+  intros. unfold run. rewrite (wrapper_content_ref value is_none sg env dc veq NV).
   destruct (wc_ref value is_none sg env dc c) as [j [r|e pn]]; cbn [fst snd]; [|reflexivity].
   rewrite conv_ref. unfold observe. destruct (conv_m (d_mode dc) r) as [pos kw].
-  destruct (py_bind value sg pos kw); reflexivity.
+  destruct (py_bind value sg pos kw); [now rewrite NV | reflexivity].
 Qed.
 
 (* ---------- Python's binding as a function of the named values ---------- *)
@@ -111,7 +113,7 @@ Definition splits (r : dict) (pos : list value) (kw : dict) : Prop :=
 
 Lemma splits_bind : forall r pos kw, splits r pos kw -> py_bind value sg pos kw = pyb r.
 Proof.
-  intros r pos kw (Hlen & Heq & Hasg & Hkw). unfold py_bind, pyb.
+  intros r pos kw (Hlen & Heq & Hasg & Hkw). unfold py_bind, pyb. rewrite NV. cbn [negb andb].
   set (asg := combine (map (@sp_name value) (pos_params value sg)) pos) in *.
   replace (Nat.ltb (List.length (pos_params value sg)) (List.length pos)) with false
     by (symmetry; apply Nat.ltb_ge; assumption).
@@ -300,13 +302,14 @@ Proof. intros r r' n E. unfold bound_val. now rewrite (E n). Qed.
 Definition final_equiv (f1 f2 : final value) : Prop :=
   match f1, f2 with
   | FBody b1, FBody b2 => deq b1 b2
+  | FBodyStar b1 s1, FBodyStar b2 s2 => deq b1 b2 /\ s1 = s2
   | FRaise _ _, FRaise _ _ => True
   | FNoCall, FNoCall => True
   | _, _ => False
   end.
 
 Lemma final_equiv_refl : forall f, final_equiv f f.
-Proof. intros [b|e pn|]; simpl; auto. apply deq_refl. Qed.
+Proof. intros [b|b st|e pn|]; simpl; auto using deq_refl. Qed.
 
 Lemma pyb_ext : forall r r', deq r r' -> final_equiv (of_outcome (pyb r)) (of_outcome (pyb r')).
 Proof.
